@@ -443,4 +443,352 @@ Proof.
 Qed.
 End Congr.
 
+Lemma prog_all_true p : prog_all (fun _ => true) p = true.
+Proof.
+  unfold prog_all. apply forallb_forall. intros st _. destruct st as [s|x e b]; cbn.
+  - destruct s; reflexivity.
+  - apply forallb_forall. intros s _. destruct s; reflexivity.
+Qed.
+
+Lemma eval_it_of_eval en e e' h : eval en e' h = eval en e h -> eval_it en e' h = eval_it en e h.
+Proof. unfold RulesPerfModel.eval_it. now intros ->. Qed.
+
+Lemma comp_via_it en e h :
+  eval en (EComp e) h =
+  match eval_it en e h with Err x h1 => Err x h1 | Ok it h1 => let (zs, h2) := drain h1 it in Ok (VNewList zs) h2 end.
+Proof.
+  unfold RulesPerfModel.eval_it. cbn [RulesPerfModel.eval]. destruct (eval en e h) as [v h1|]; [|reflexivity].
+  unfold RulesPerfModel.with_items. destruct (to_itref v); reflexivity.
+Qed.
+
+Lemma genx_via_it en e h :
+  eval en (EGenx e) h = match eval_it en e h with Err x h1 => Err x h1 | Ok it h1 => Ok (of_itref it) h1 end.
+Proof.
+  unfold RulesPerfModel.eval_it. cbn [RulesPerfModel.eval]. destruct (eval en e h) as [v h1|]; [|reflexivity].
+  destruct (to_itref v); reflexivity.
+Qed.
+
+(* ================================================================ remove_redundant_iter *)
+Lemma eval_it_iter en a h : bound en N_ITER = false -> eval_it en (ECall FIter a) h = eval_it en a h.
+Proof.
+  intros Hb. unfold RulesPerfModel.eval_it. cbn [RulesPerfModel.eval fn_name].
+  destruct (eval en a h) as [v h1|]; [|reflexivity]. rewrite Hb. unfold RulesPerfModel.call.
+  destruct (to_itref v) as [it|]; [|reflexivity]. now rewrite to_itref_of_itref.
+Qed.
+
+Lemma eval_it_copy p en f a h :
+  f <> FIter -> Inv p en -> rebound p (fn_name f) = false -> is_coll false p a = true ->
+  eval_it en (ECall f a) h = eval_it en a h.
+Proof.
+  intros Hf HI Hr Hc. unfold RulesPerfModel.eval_it. cbn [RulesPerfModel.eval].
+  destruct (eval en a h) as [v h1|] eqn:Ea; [|reflexivity].
+  rewrite (unbound_of_inv _ _ _ HI Hr).
+  destruct (coll_value _ _ _ _ _ _ _ HI Hc Ea) as [[[zs ->]|[zs ->]]|(Hm & _)]; [| |discriminate];
+    destruct f; try congruence; reflexivity.
+Qed.
+
+Lemma strip_ok p en : Inv p en -> forall e h, eval_it en (strip_with false false p e) h = eval_it en e h.
+Proof.
+  intros HI. induction e; intros h; try reflexivity.
+  destruct f; cbn [strip_with fn_name].
+  - destruct (negb (rebound p N_LIST) && (false || is_coll false p e)) eqn:G; [|reflexivity].
+    apply andb_true_iff in G. destruct G as [G1 G2]. apply negb_true_iff in G1. cbn [orb] in G2.
+    rewrite IHe. symmetry. eapply eval_it_copy; try eassumption. discriminate.
+  - destruct (negb (rebound p N_TUPLE) && (false || is_coll false p e)) eqn:G; [|reflexivity].
+    apply andb_true_iff in G. destruct G as [G1 G2]. apply negb_true_iff in G1. cbn [orb] in G2.
+    rewrite IHe. symmetry. eapply eval_it_copy; try eassumption. discriminate.
+  - destruct (rebound p N_ITER) eqn:G; [reflexivity|].
+    rewrite IHe. symmetry. apply eval_it_iter. eapply unbound_of_inv; eassumption.
+Qed.
+
+Lemma rri_expr_ok p en : Inv p en -> forall e h, eval en (rri_expr_with false false p e) h = eval en e h.
+Proof.
+  intros HI. induction e; intros h; cbn [rri_expr_with]; try reflexivity;
+    try (cbn [RulesPerfModel.eval]; rewrite IHe; reflexivity).
+  - rewrite !comp_via_it, strip_ok by assumption. now rewrite (eval_it_of_eval _ _ _ _ (IHe h)).
+  - rewrite !genx_via_it, strip_ok by assumption. now rewrite (eval_it_of_eval _ _ _ _ (IHe h)).
+Qed.
+
+Theorem rri_preserves fuel p : run fuel (rri p) = run fuel p.
+Proof.
+  unfold rri, rri_with. apply run_map with (ok := fun _ => true).
+  - intros. now apply rri_expr_ok.
+  - intros. rewrite strip_ok by assumption. apply eval_it_of_eval. now apply rri_expr_ok.
+  - apply prog_all_true.
+Qed.
+
+(* ================================================================ optimize_contains_types *)
+Ltac on_the_spot :=
+  unfold RulesPerfModel.call, RulesPerfModel.with_items; cbn [to_itref of_itref];
+  repeat (rewrite drain_local by reflexivity); cbn [to_itref of_itref];
+  repeat (rewrite scan_local by reflexivity); cbn [rest skipn].
+
+Lemma in_wrapper_ok p en a f c h :
+  Inv p en -> rebound p (fn_name f) = false -> is_coll true p c = true ->
+  eval en (EIn a (ECall f c)) h = eval en (EIn a c) h.
+Proof.
+  intros HI Hr Hc. cbn [RulesPerfModel.eval]. destruct (atomv en a) as [va|]; [|reflexivity].
+  destruct (eval en c h) as [v h1|] eqn:Ec; [|reflexivity].
+  rewrite (unbound_of_inv _ _ _ HI Hr).
+  destruct (coll_value _ _ _ _ _ _ _ HI Hc Ec) as [[[zs ->]|[zs ->]]|(_ & _ & l & ->)];
+    destruct f; on_the_spot; reflexivity.
+Qed.
+
+Lemma in_sorted_ok p en a c h :
+  Inv p en -> rebound p N_SORTED = false -> is_coll true p c = true ->
+  eval en (EIn a (ESorted false c)) h = eval en (EIn a c) h.
+Proof.
+  intros HI Hr Hc. cbn [RulesPerfModel.eval]. destruct (atomv en a) as [va|]; [|reflexivity].
+  destruct (eval en c h) as [v h1|] eqn:Ec; [|reflexivity].
+  rewrite (unbound_of_inv _ _ _ HI Hr).
+  destruct (coll_value _ _ _ _ _ _ _ HI Hc Ec) as [[[zs ->]|[zs ->]]|(_ & _ & l & ->)];
+    on_the_spot; rewrite mem_isort; reflexivity.
+Qed.
+
+Lemma in_comp_genx_ok p en a c h :
+  Inv p en -> is_coll true p c = true -> eval en (EIn a (EGenx c)) h = eval en (EIn a (EComp c)) h.
+Proof.
+  intros HI Hc. cbn [RulesPerfModel.eval]. destruct (atomv en a) as [va|]; [|reflexivity].
+  destruct (eval en c h) as [v h1|] eqn:Ec; [|reflexivity].
+  destruct (coll_value _ _ _ _ _ _ _ HI Hc Ec) as [[[zs ->]|[zs ->]]|(_ & _ & l & ->)];
+    on_the_spot; reflexivity.
+Qed.
+
+Lemma in_set_ok en a zs h :
+  literal_atom a = true ->
+  eval en (EInSet a zs) h = eval en (EIn a (EDisp zs)) h /\ eval en (EInSet a zs) h = eval en (EIn a (ETupD zs)) h.
+Proof.
+  intros Ha. destruct a; try discriminate; cbn [RulesPerfModel.eval atomv unhashable]; on_the_spot;
+    rewrite mem_existsb; split; reflexivity.
+Qed.
+
+Definition oct_guard (sets : bool) (e : expr) : bool := if sets then oct_safe e else true.
+
+Lemma oct_rhs_ok sets p en a : Inv p en -> (sets = false \/ literal_atom a = true) ->
+  forall c h, eval en (oct_rhs sets false p a c) h = eval en (EIn a c) h.
+Proof.
+  intros HI Ha. induction c; intros h; try reflexivity.
+  - cbn [oct_rhs]. destruct sets; [|reflexivity]. destruct Ha as [Ha|Ha]; [discriminate|].
+    apply (in_set_ok en a zs h Ha).
+  - cbn [oct_rhs]. destruct sets; [|reflexivity]. destruct Ha as [Ha|Ha]; [discriminate|].
+    apply (in_set_ok en a zs h Ha).
+  - cbn [oct_rhs]. destruct (negb (rebound p (fn_name f)) && (false || is_coll true p c)) eqn:G; [|reflexivity].
+    apply andb_true_iff in G. destruct G as [G1 G2]. apply negb_true_iff in G1. cbn [orb] in G2.
+    rewrite IHc. symmetry. now apply (in_wrapper_ok p).
+  - cbn [oct_rhs]. destruct k; [reflexivity|].
+    destruct (negb (rebound p N_SORTED) && (false || is_coll true p c)) eqn:G; [|reflexivity].
+    apply andb_true_iff in G. destruct G as [G1 G2]. apply negb_true_iff in G1. cbn [orb] in G2.
+    rewrite IHc. symmetry. now apply (in_sorted_ok p).
+  - cbn [oct_rhs orb]. destruct (is_coll true p c) eqn:G; [|reflexivity]. now apply (in_comp_genx_ok p).
+Qed.
+
+Lemma oct_expr_ok sets p en : Inv p en ->
+  forall e h, oct_guard sets e = true -> eval en (oct_expr sets false p e) h = eval en e h.
+Proof.
+  intros HI. unfold oct_guard.
+  induction e; intros h Hg; cbn [oct_expr]; try reflexivity;
+    try (cbn [RulesPerfModel.eval]; rewrite IHe by (destruct sets; [exact Hg|reflexivity]); reflexivity).
+  rewrite oct_rhs_ok; [|assumption|].
+  - cbn [RulesPerfModel.eval]. rewrite IHe; [reflexivity|].
+    destruct sets; [|reflexivity]. cbn [oct_safe] in Hg. apply andb_true_iff in Hg. apply Hg.
+  - destruct sets; [right|now left]. cbn [oct_safe] in Hg. apply andb_true_iff in Hg. apply Hg.
+Qed.
+
+Theorem oct_wrappers_preserves fuel p : run fuel (oct_wrappers p) = run fuel p.
+Proof.
+  unfold oct_wrappers, oct_with. apply run_map with (ok := fun _ => true).
+  - intros. now apply (oct_expr_ok false).
+  - intros. apply eval_it_of_eval. now apply (oct_expr_ok false).
+  - apply prog_all_true.
+Qed.
+
+Theorem oct_partial fuel p : prog_all oct_safe p = true -> run fuel (oct p) = run fuel p.
+Proof.
+  intros Hok. unfold oct, oct_with. apply run_map with (ok := oct_safe); [| |assumption].
+  - intros. now apply (oct_expr_ok true).
+  - intros. apply eval_it_of_eval. now apply (oct_expr_ok true).
+Qed.
+
+(* ================================================================ replace_sorted_heapq *)
+Lemma slice_to_pos zs z : 0 < z -> slice_to zs z = firstn (Z.to_nat z) zs.
+Proof. intros Hz. unfold slice_to. destruct (0 <=? z) eqn:E; [reflexivity|lia]. Qed.
+
+Lemma slice_from_neg_pos zs z : 0 < z -> slice_from_neg zs z = skipn (length zs - Z.to_nat z) zs.
+Proof. intros Hz. unfold slice_from_neg. destruct (0 <? z) eqn:E; [reflexivity|lia]. Qed.
+
+Lemma nlargest_rev_nokey z zs : nlargest_rev false z zs = skipn (length (isort false zs) - Z.to_nat z) (isort false zs).
+Proof. unfold nlargest_rev. now rewrite isort_rev, lastn_as_rev. Qed.
+
+Lemma hq_head_ok p en e h : Inv p en -> head_safe e = true -> eval en (hq_head p e) h = eval en e h.
+Proof.
+  intros HI Hs. unfold hq_head. destruct (rebound p N_SORTED) eqn:Rs; [reflexivity|].
+  pose proof (unbound_of_inv _ _ _ HI Rs) as Bs.
+  destruct e; try reflexivity; destruct e; try reflexivity.
+  - (* sorted(c)[0] -> min(c) *)
+    destruct (rebound p N_MIN) eqn:Rm; [reflexivity|]. pose proof (unbound_of_inv _ _ _ HI Rm) as Bm.
+    cbn [head_safe] in Hs. destruct e; try discriminate; destruct zs as [|z zs]; try discriminate;
+      cbn [RulesPerfModel.eval]; rewrite Bs, Bm; on_the_spot; cbn [as_seq];
+      pose proof (isort_head k (z :: zs)) as Hh; destruct (isort k (z :: zs)) eqn:E;
+      try (apply isort_nil in E; discriminate); rewrite Hh; reflexivity.
+  - (* sorted(c)[-1] -> max(c) *)
+    destruct (rebound p N_MAX) eqn:Rm; [reflexivity|]. pose proof (unbound_of_inv _ _ _ HI Rm) as Bm.
+    cbn [head_safe] in Hs. apply andb_true_iff in Hs. destruct Hs as [Hk Hs]. apply negb_true_iff in Hk. subst k.
+    destruct e; try discriminate; destruct zs as [|z zs]; try discriminate;
+      cbn [RulesPerfModel.eval]; rewrite Bs, Bm; on_the_spot; cbn [as_seq];
+      pose proof (isort_last (z :: zs)) as Hh; destruct (rev (isort false (z :: zs))) eqn:E;
+      first [rewrite Hh; reflexivity
+            |exfalso; cbn [maxby] in Hh; destruct (maxby false zs) as [m|]; [destruct (keyf false m <=? keyf false z)|]; discriminate].
+  - (* sorted(c)[:n] -> heapq.nsmallest(n, c) *)
+    destruct (negative_literal n) eqn:Nn; [reflexivity|].
+    cbn [head_safe] in Hs. rewrite Nn, orb_false_r in Hs.
+    destruct n as [z| |]; try discriminate. cbn [positive_literal] in Hs. apply Z.ltb_lt in Hs.
+    cbn [RulesPerfModel.eval atomv as_index]. destruct (eval en e h) as [v h1|]; [|reflexivity].
+    rewrite Bs. unfold RulesPerfModel.with_items. destruct (to_itref v) as [it|]; [|reflexivity].
+    destruct (z <=? 0) eqn:Ez; [lia|]. destruct (drain h1 it) as [zs h2].
+    cbn [as_seq mk_seq]. now rewrite slice_to_pos.
+  - (* sorted(c)[-n:] -> list(reversed(heapq.nlargest(n, c))) *)
+    destruct (rebound p N_LIST || rebound p N_REVERSED) eqn:Rl; [reflexivity|].
+    apply orb_false_iff in Rl. destruct Rl as [Rl Rr].
+    pose proof (unbound_of_inv _ _ _ HI Rl) as Bl. pose proof (unbound_of_inv _ _ _ HI Rr) as Br.
+    cbn [head_safe] in Hs. apply andb_true_iff in Hs. destruct Hs as [Hk Hs]. apply negb_true_iff in Hk. subst k.
+    destruct n as [z| |]; try discriminate. cbn [positive_literal] in Hs. apply Z.ltb_lt in Hs.
+    cbn [RulesPerfModel.eval atomv as_index]. destruct (eval en e h) as [v h1|]; [|reflexivity].
+    rewrite Bs, Bl, Br. unfold RulesPerfModel.with_items. destruct (to_itref v) as [it|]; [|reflexivity].
+    destruct (z <=? 0) eqn:Ez; [lia|]. destruct (drain h1 it) as [zs h2].
+    cbn [as_seq mk_seq orb]. now rewrite slice_from_neg_pos, nlargest_rev_nokey.
+Qed.
+
+Lemma hq_expr_ok p en : Inv p en -> forall e h, hq_ok p e = true -> eval en (hq_expr p e) h = eval en e h.
+Proof.
+  intros HI. induction e; intros h Hok; cbn [hq_expr]; cbn [hq_ok] in Hok;
+    try (rewrite hq_head_ok by (assumption || reflexivity); reflexivity);
+    try (rewrite hq_head_ok by (assumption || reflexivity); cbn [RulesPerfModel.eval]; rewrite IHe by assumption; reflexivity);
+    apply andb_true_iff in Hok; destruct Hok as [Ha Hh];
+    rewrite hq_head_ok by assumption; cbn [RulesPerfModel.eval]; rewrite IHe by assumption; reflexivity.
+Qed.
+
+Theorem hq_partial fuel p : prog_all (hq_ok p) p = true -> run fuel (hq p) = run fuel p.
+Proof.
+  intros Hok. unfold hq. apply run_map with (ok := hq_ok p); [| |assumption].
+  - intros. now apply hq_expr_ok.
+  - intros. apply eval_it_of_eval. now apply hq_expr_ok.
+Qed.
+
 End Proofs.
+
+(* ================================================================ witnesses *)
+Definition W12 (k : nat) : list Z := [1; 2].
+(* what a run shows: the exception class it ends with and the events *)
+Definition obs (o : outcome) : option exc * list event := (fst (fst o), tr (snd o)).
+
+Ltac differs := intros H; vm_compute in H; discriminate H.
+
+(* F02-63: membership in a set needs a hashable element *)
+Definition p_unhashable : prog :=
+  [SS (SAssign 8%nat (EDisp [1])); SS (SPrint (EIn (AVar 8%nat) (EDisp [1; 2])))].
+Theorem oct_refuted : exists W fuel p, obs (run W fuel (oct p)) <> obs (run W fuel p).
+Proof. exists W12, 5%nat, p_unhashable. differs. Qed.
+
+Example oct_partial_example :
+  let p := [SS (SAssign 9%nat (EDisp [1; 2])); SS (SPrint (EIn (AInt 2) (ECall FList (ECall FList (EAtom (AVar 9%nat))))));
+            SS (SPrint (EIn (AInt 3) (ESorted false (ETupD [3; 1]))))] in
+  prog_all oct_safe p = true /\
+  oct p = [SS (SAssign 9%nat (EDisp [1; 2])); SS (SPrint (EIn (AInt 2) (EAtom (AVar 9%nat)))); SS (SPrint (EInSet (AInt 3) [3; 1]))].
+Proof. split; reflexivity. Qed.
+
+(* the exception class of the empty case: IndexError before, ValueError after *)
+Definition p_empty : prog := [SS (SPrint (EIdx0 (ESorted false (EDisp []))))].
+Theorem hq_refuted_empty : exists W fuel p, obs (run W fuel (hq p)) <> obs (run W fuel p).
+Proof. exists W12, 5%nat, p_empty. differs. Qed.
+Example hq_empty_classes :
+  obs (run W12 5%nat p_empty) = (Some IndexErr, []) /\ obs (run W12 5%nat (hq p_empty)) = (Some ValueErr, []).
+Proof. split; reflexivity. Qed.
+
+(* F02-69: sorted(.., key=abs)[-1] is the LAST maximal element, max(.., key=abs) the first *)
+Definition p_ties : prog := [SS (SPrint (EIdxL (ESorted true (EDisp [-1; 1]))))].
+Theorem hq_refuted_ties : exists W fuel p, obs (run W fuel (hq p)) <> obs (run W fuel p).
+Proof. exists W12, 5%nat, p_ties. differs. Qed.
+
+(* F02perf-2: [:n] with a negative n drops from the end, heapq.nsmallest(n, ..) is empty *)
+Definition p_negative_n : prog :=
+  [SS (SAssign 9%nat (EAtom (AInt (-1)))); SS (SPrint (ESliceTo (ESorted false (EDisp [3; 1; 2])) (AVar 9%nat)))].
+Theorem hq_refuted_negative_n : exists W fuel p, obs (run W fuel (hq p)) <> obs (run W fuel p).
+Proof. exists W12, 5%nat, p_negative_n. differs. Qed.
+
+(* F02-70: [-0:] is the whole list *)
+Definition p_tail_zero : prog := [SS (SPrint (ESliceFrom (ESorted false (EDisp [3; 1; 2])) (AInt 0)))].
+Theorem hq_refuted_tail_zero : exists W fuel p, obs (run W fuel (hq p)) <> obs (run W fuel p).
+Proof. exists W12, 5%nat, p_tail_zero. differs. Qed.
+
+Example hq_partial_example :
+  let p := [SS (SAssign 9%nat (EDisp [3; 1; 2])); SS (SPrint (EIdx0 (ESorted true (ETupD [3; -1]))));
+            SS (SPrint (ESliceTo (ESorted true (EAtom (AVar 9%nat))) (AInt 2)));
+            SFor 8%nat (ESliceFrom (ESorted false (EGen 0%nat)) (AInt 1)) [SPrint (EIdxL (ESorted false (EDisp [2; 5])))]] in
+  prog_all (hq_ok p) p = true /\
+  hq p = [SS (SAssign 9%nat (EDisp [3; 1; 2])); SS (SPrint (EMin true (ETupD [3; -1])));
+          SS (SPrint (ENsm (AInt 2) true (EAtom (AVar 9%nat))));
+          SFor 8%nat (ERevNl (AInt 1) false (EGen 0%nat)) [SPrint (EMax false (EDisp [2; 5]))]].
+Proof. split; reflexivity. Qed.
+
+(* the rules before their repairs *)
+(* 32fac44: a generator is drained before the first iteration by list(), interleaved with the body without *)
+Definition p_interleave : prog := [SFor 8%nat (ECall FList (EGen 0%nat)) [SPrint (EAtom (AVar 8%nat))]].
+Theorem rri_before_32fac44_refuted :
+  exists W fuel p, obs (run W fuel (rri_before_32fac44 p)) <> obs (run W fuel p).
+Proof. exists W12, 5%nat, p_interleave. differs. Qed.
+Example rri_interleave_traces :
+  obs (run W12 5%nat p_interleave)
+    = (None, [EvPull 0%nat 0%nat; EvPull 0%nat 1%nat; EvDone 0%nat; EvPrint (RInt 1); EvPrint (RInt 2)]) /\
+  obs (run W12 5%nat (rri_before_32fac44 p_interleave))
+    = (None, [EvPull 0%nat 0%nat; EvPrint (RInt 1); EvPull 0%nat 1%nat; EvPrint (RInt 2); EvDone 0%nat]) /\
+  rri p_interleave = p_interleave.
+Proof. repeat split; reflexivity. Qed.
+
+(* 48376de (F02-65): list(xs) is a snapshot; the body mutates xs *)
+Definition p_snapshot : prog :=
+  [SS (SAssign 9%nat (EDisp [1; 2; 3])); SFor 8%nat (ECall FList (EAtom (AVar 9%nat))) [SRemove 9%nat (AVar 8%nat)];
+   SS (SPrint (EAtom (AVar 9%nat)))].
+Theorem rri_before_48376de_refuted :
+  exists W fuel p, obs (run W fuel (rri_before_48376de p)) <> obs (run W fuel p).
+Proof. exists W12, 5%nat, p_snapshot. differs. Qed.
+Example rri_snapshot_traces :
+  obs (run W12 5%nat p_snapshot) = (None, [EvPrint (RList [])]) /\
+  obs (run W12 5%nat (rri_before_48376de p_snapshot)) = (None, [EvPrint (RList [2])]) /\
+  rri p_snapshot = p_snapshot.
+Proof. repeat split; reflexivity. Qed.
+(* an immutable collection that has a name is still iterated over directly *)
+Example rri_tuple_name :
+  rri [SS (SAssign 9%nat (ETupD [1; 2])); SFor 8%nat (ECall FList (EAtom (AVar 9%nat))) [SPrint (EAtom (AVar 8%nat))]]
+  = [SS (SAssign 9%nat (ETupD [1; 2])); SFor 8%nat (EAtom (AVar 9%nat)) [SPrint (EAtom (AVar 8%nat))]].
+Proof. reflexivity. Qed.
+
+(* 2835a2e: list(g) uses the iterator up, `in` only up to the first hit *)
+Definition p_consumed : prog :=
+  [SS (SAssign 9%nat (ECall FIter (EDisp [1; 2; 3]))); SS (SPrint (EIn (AInt 2) (ECall FList (EAtom (AVar 9%nat)))));
+   SS (SPrint (ECall FList (EAtom (AVar 9%nat))))].
+Theorem oct_before_2835a2e_refuted :
+  exists W fuel p, obs (run W fuel (oct_before_2835a2e p)) <> obs (run W fuel p).
+Proof. exists W12, 5%nat, p_consumed. differs. Qed.
+Example oct_consumed_traces :
+  obs (run W12 5%nat p_consumed) = (None, [EvPrint (RBool true); EvPrint (RList [])]) /\
+  obs (run W12 5%nat (oct_before_2835a2e p_consumed)) = (None, [EvPrint (RBool true); EvPrint (RList [3])]) /\
+  oct p_consumed = p_consumed.
+Proof. repeat split; reflexivity. Qed.
+
+(* 653d272: a generator expression stops at the first hit, the list comprehension runs to the end *)
+Definition p_lazy : prog := [SS (SPrint (EIn (AInt 1) (EComp (EGen 0%nat))))].
+Theorem oct_before_653d272_refuted :
+  exists W fuel p, obs (run W fuel (oct_before_2835a2e p)) <> obs (run W fuel p).
+Proof. exists W12, 5%nat, p_lazy. differs. Qed.
+Example oct_lazy_traces :
+  obs (run W12 5%nat p_lazy) = (None, [EvPull 0%nat 0%nat; EvPull 0%nat 1%nat; EvDone 0%nat; EvPrint (RBool true)]) /\
+  obs (run W12 5%nat (oct_before_2835a2e p_lazy)) = (None, [EvPull 0%nat 0%nat; EvPrint (RBool true)]) /\
+  oct p_lazy = p_lazy.
+Proof. repeat split; reflexivity. Qed.
+
+(* 5ea8100: a module that rebinds list is left alone (the call raises TypeError, dropping it would not) *)
+Example rebound_untouched :
+  let p := [SS (SAssign N_LIST (ETupD [1; 2])); SFor 8%nat (ECall FList (EDisp [1])) [SPrint (EAtom (AVar 8%nat))];
+            SS (SPrint (EIn (AInt 1) (ECall FList (EDisp [1]))))] in
+  rri p = p /\ oct p = p /\ obs (run W12 5%nat p) = (Some TypeErr, []).
+Proof. repeat split; reflexivity. Qed.
